@@ -61,11 +61,11 @@ impl<'a> WireFormat<'a> for SOA<'a> {
         let mname = Name::parse(data, position)?;
         let rname = Name::parse(data, position)?;
 
-        let serial = u32::from_be_bytes(data[*position..*position + 4].try_into()?);
-        let refresh = i32::from_be_bytes(data[*position + 4..*position + 8].try_into()?);
-        let retry = i32::from_be_bytes(data[*position + 8..*position + 12].try_into()?);
-        let expire = i32::from_be_bytes(data[*position + 12..*position + 16].try_into()?);
-        let minimum = u32::from_be_bytes(data[*position + 16..*position + 20].try_into()?);
+        let serial = u32::from_be_bytes(data.get(*position..*position + 4).ok_or(crate::SimpleDnsError::InsufficientData)?.try_into()?);
+        let refresh = i32::from_be_bytes(data.get(*position + 4..*position + 8).ok_or(crate::SimpleDnsError::InsufficientData)?.try_into()?);
+        let retry = i32::from_be_bytes(data.get(*position + 8..*position + 12).ok_or(crate::SimpleDnsError::InsufficientData)?.try_into()?);
+        let expire = i32::from_be_bytes(data.get(*position + 12..*position + 16).ok_or(crate::SimpleDnsError::InsufficientData)?.try_into()?);
+        let minimum = u32::from_be_bytes(data.get(*position + 16..*position + 20).ok_or(crate::SimpleDnsError::InsufficientData)?.try_into()?);
 
         *position += 20;
 
